@@ -247,6 +247,39 @@ func (g *GhostDB) dbBuiltin(env *SpecEnv, st *State, name string, args []TV) (TV
 			cs = append(cs, Eq(g.rowAt(st, g.cur[tn], k0), g.rowAt(st, g.entry[tn], k0)))
 		}
 		return TV{VScalar{And(cs...)}, boolT}, true
+	case "txlog":
+		return TV{VScalar{x.sym.StrLit(strings.Join(g.txLog, ","))}, types.Typ[types.String]}, true
+	case "sqlis":
+		// sqlis(stmt, "CONST"): the statement pointer is nil or was prepared from that constant
+		pv, ok := x.force(st, args[0].V).(VPtr)
+		cname, ok2 := x.sym.LitValue(env.term(args[1]).S)
+		if !ok || !ok2 {
+			env.fail("sqlis(stmt, \"CONSTANT\")")
+		}
+		pkgPath := ""
+		if len(st.frames) > 0 && st.frames[0].fn.Pkg != nil {
+			pkgPath = st.frames[0].fn.Pkg.Pkg.Path()
+		}
+		want, okc := x.prog.constString(pkgPath, cname)
+		if !okc {
+			env.fail("no string constant %s", cname)
+		}
+		if pv.Loc == nil || pv.Nil.IsTrue() {
+			return TV{VScalar{TTrue}, boolT}, true
+		}
+		switch o := st.heap[pv.Loc.Obj].(type) {
+		case *SQLStmtObj:
+			return TV{VScalar{Or(pv.Nil, BoolLit(o.Text == want))}, boolT}, true
+		case VLazy:
+			if env.assumeMode {
+				// a havocked statement variable: the invariant tells which statement it holds
+				if stmts, err := ParseSQL(want); err == nil && len(stmts) == 1 {
+					st.heap[pv.Loc.Obj] = &SQLStmtObj{Text: want, Stmt: stmts[0], Name: cname}
+					return TV{VScalar{TTrue}, boolT}, true
+				}
+			}
+		}
+		return TV{VScalar{pv.Nil}, boolT}, true
 	case "now":
 		return TV{VScalar{g.now}, types.Typ[types.Int64]}, true
 	}
